@@ -197,6 +197,9 @@ class VariantFlow:
         p = F.op_place(op)
         if p is not None:
             return self.read(env, p)
+        n = F.const_int(op) if isinstance(op, dict) else None
+        if n is not None:
+            return ("int", n)           # small integer constants are tracked so that rank comparisons can be decided
         return None
 
     # ---- transfer -------------------------------------------------------------------------------
@@ -212,6 +215,21 @@ class VariantFlow:
             return Disc(r["p"])
         if k == "cast":
             return self.operand(env, r["o"])
+        if k == "bin":
+            a, b = self.operand(env, r["a"]), self.operand(env, r["b"])
+            if isinstance(a, tuple) and isinstance(b, tuple) and a[:1] == ("int",) and b[:1] == ("int",):
+                x, y = a[1], b[1]
+                op = r["op"].replace("WithOverflow", "")
+                tbl = {"Lt": int(x < y), "Le": int(x <= y), "Gt": int(x > y), "Ge": int(x >= y), "Eq": int(x == y), "Ne": int(x != y),
+                       "Add": x + y, "Sub": x - y}
+                if op in tbl and not r["op"].endswith("WithOverflow"):
+                    return ("int", tbl[op])
+            return None
+        if k == "un" and r.get("op") == "Not":
+            a = self.operand(env, r["a"])
+            if isinstance(a, tuple) and a[:1] == ("int",) and a[1] in (0, 1):
+                return ("int", 1 - a[1])
+            return None
         if k == "agg":
             if r["ak"] == "adt":
                 adt, vi = r["adt"], r["vi"]
@@ -309,6 +327,10 @@ class VariantFlow:
             return
         if k == "switch":
             cond = self.operand(env, t["o"])
+            if isinstance(cond, tuple) and cond[:1] == ("int",):
+                tgt = next((b for v, b in t["ts"] if int(v) == cond[1]), t["else"])
+                yield tgt, env
+                return
             listed = []
             for v, b in t["ts"]:
                 listed.append(int(v))
